@@ -132,7 +132,7 @@ theorem unrate16_pos (st : Bool) (s : Nat) (h : s < 65536) : 1 ≤ unrate16 st s
   apply (Nat.le_div_iff_mul_le h2).mpr
   cases st <;> simp <;> omega
 
-theorem hdr1_explicit (c : Cfg) (h5 : c.codec = 5) (h1 : c.ch = 1) (f : Fields) (L : Nat) (hL : wrapU 24 (wrapS 32 (f.datalength + 1)) = L) :
+theorem hdr1_explicit (c : Cfg) (h5 : c.codec = 5) (h1 : c.ch = 1) (f : Fields) (L : Nat) (hL : wrapU 24 (wrapS 32 (f.datalength + 2)) = L) :
     hdr c f = fileHdr ++ (1 :: L % 256 :: L / 256 % 256 :: L / 256 / 256 % 256 :: rate8 c.sr :: 0 :: []) := by
   unfold hdr
   rw [if_pos h5, if_pos h1]
@@ -141,7 +141,7 @@ theorem hdr1_explicit (c : Cfg) (h5 : c.codec = 5) (h1 : c.ch = 1) (f : Fields) 
 /-- **voc_read_header on a type 1 image**: `L` is the value of the length field, `data` everything after the 32-byte
     header; the reader takes the LAST byte of the file for the terminator -/
 theorem parse_image1 (c : Cfg) (hwf : c.wf) (h5 : c.codec = 5) (h1 : c.ch = 1) (f : Fields) (L : Nat)
-    (hL : wrapU 24 (wrapS 32 (f.datalength + 1)) = L) (data : List Byte) (hlen : 32 + data.length < 2 ^ 31)
+    (hL : wrapU 24 (wrapS 32 (f.datalength + 2)) = L) (data : List Byte) (hlen : 32 + data.length < 2 ^ 31)
     (hlo : L ≤ data.length + 1) (hhi : data.length ≤ L + 4) :
     parse (hdr c f ++ data) = .ok { ch := 1, fmt := c.fmtWord, sr := quant c, frames := data.length - 1 } := by
   have hL24 : L < 2 ^ 24 := by rw [← hL]; exact wrapU_lt 24 _
@@ -164,11 +164,12 @@ theorem parse_image1 (c : Cfg) (hwf : c.wf) (h5 : c.codec = 5) (h1 : c.ch = 1) (
   simp only [r26, r27, r30, k4, hXlen]
   have e32 : 26 + (6 + data.length) = 32 + data.length := by omega
   have n15 : ¬ ((1 : Nat) = 5 ∨ (1 : Nat) = 6) := by decide
+  have c0 : ¬ (32 + (L : Int) - 2 = ((32 + data.length : Nat) : Int)) := by omega
   have c1 : ¬ (32 + (L : Int) - 1 > ((32 + data.length : Nat) : Int)) := by omega
   have c2 : ¬ (((32 + data.length : Nat) : Int) - 32 - (L : Int) > 4) := by omega
   have c3 : ¬ (32 + data.length < 32) := by omega
   rw [e32]
-  simp only [n15, if_false, if_true, c1, c2, c3]
+  simp only [n15, if_false, if_true, c0, c1, c2, c3]
   have hp := unrate8_pos (rate8 c.sr) (rate8_lt c.sr)
   have c4 : ¬ ((1 : Nat) < 1 ∨ ((unrate8 (rate8 c.sr) : Nat) : Int) < 1) := by omega
   rw [if_neg c4]
@@ -186,7 +187,45 @@ theorem parse_image1 (c : Cfg) (hwf : c.wf) (h5 : c.codec = 5) (h1 : c.ch = 1) (
   rw [hfr, hq]
   simp [Cfg.fmtWord, h5]
 
-theorem hdr8_explicit (c : Cfg) (h5 : c.codec = 5) (h2 : c.ch = 2) (f : Fields) (L : Nat) (hL : wrapU 24 (wrapS 32 (f.datalength + 1)) = L) :
+/-- **voc_read_header on a type 1 image without terminator** (what a header update leaves): the block would end one
+    byte beyond the file, every byte after the header is audio -/
+theorem parse_image1_missing (c : Cfg) (hwf : c.wf) (h5 : c.codec = 5) (h1 : c.ch = 1) (f : Fields) (L : Nat)
+    (hL : wrapU 24 (wrapS 32 (f.datalength + 2)) = L) (data : List Byte) (hlen : 32 + data.length < 2 ^ 31)
+    (hfit : L = data.length + 2) :
+    parse (hdr c f ++ data) = .ok { ch := 1, fmt := c.fmtWord, sr := quant c, frames := data.length } := by
+  have hL24 : L < 2 ^ 24 := by rw [← hL]; exact wrapU_lt 24 _
+  rw [hdr1_explicit c h5 h1 f L hL, List.append_assoc]
+  generalize hX : (1 :: L % 256 :: L / 256 % 256 :: L / 256 / 256 % 256 :: rate8 c.sr :: 0 :: []) ++ data = X
+  have hXlen : X.length = 6 + data.length := by rw [← hX]; simp; omega
+  obtain ⟨k1, k2, k3, k4⟩ := fileHdr_checks X
+  have hbr := block_reads6 1 (L % 256) (L / 256 % 256) (L / 256 / 256 % 256) (rate8 c.sr) 0 data
+  simp only [List.cons_append, List.nil_append] at hbr hX
+  rw [hX] at hbr
+  obtain ⟨r26, r27, r30⟩ := hbr
+  rw [ofLE3_bytes L hL24] at r27
+  unfold parse
+  rw [if_neg (by omega), guess_voc]
+  simp only []
+  unfold readHeader
+  rw [if_neg (by omega), if_neg (by omega), k1, k2, k3]
+  simp only [ne_eq, not_true_eq_false, or_self, false_and, if_false, and_false, and_self]
+  unfold readBlock
+  simp only [r26, r27, r30, k4, hXlen]
+  have e32 : 26 + (6 + data.length) = 32 + data.length := by omega
+  have n15 : ¬ ((1 : Nat) = 5 ∨ (1 : Nat) = 6) := by decide
+  have c0 : 32 + (L : Int) - 2 = ((32 + data.length : Nat) : Int) := by omega
+  have c3 : ¬ (32 + data.length < 32) := by omega
+  rw [e32]
+  simp only [n15, if_false, if_true, c0, c3]
+  have hp := unrate8_pos (rate8 c.sr) (rate8_lt c.sr)
+  have c4 : ¬ ((1 : Nat) < 1 ∨ ((unrate8 (rate8 c.sr) : Nat) : Int) < 1) := by omega
+  rw [if_neg c4]
+  have hq : quant c = unrate8 (rate8 c.sr) := by unfold quant; rw [if_pos h5, if_pos h1]
+  have hfr := framesOf_nat 32 data.length (1 * 1) (by decide)
+  rw [hfr, hq]
+  simp [Cfg.fmtWord, h5]
+
+theorem hdr8_explicit (c : Cfg) (h5 : c.codec = 5) (h2 : c.ch = 2) (f : Fields) (L : Nat) (hL : wrapU 24 (wrapS 32 (f.datalength + 2)) = L) :
     hdr c f = fileHdr ++ (8 :: 4 :: 0 :: 0 :: rate16 c.sr % 256 :: rate16 c.sr / 256 % 256 :: 0 :: 1 :: 1 ::
       L % 256 :: L / 256 % 256 :: L / 256 / 256 % 256 :: rate8 c.sr :: 0 :: []) := by
   have w4 : wrapU 24 4 = 4 := by decide
@@ -198,7 +237,7 @@ theorem hdr8_explicit (c : Cfg) (h5 : c.codec = 5) (h2 : c.ch = 2) (f : Fields) 
 
 /-- **voc_read_header on a type 8 + type 1 image**: the block must end exactly one byte before the end of the file -/
 theorem parse_image8 (c : Cfg) (hwf : c.wf) (h5 : c.codec = 5) (h2 : c.ch = 2) (f : Fields) (L : Nat)
-    (hL : wrapU 24 (wrapS 32 (f.datalength + 1)) = L) (data : List Byte) (hlen : 40 + data.length < 2 ^ 31)
+    (hL : wrapU 24 (wrapS 32 (f.datalength + 2)) = L) (data : List Byte) (hlen : 40 + data.length < 2 ^ 31)
     (hfit : L = data.length + 1) :
     parse (hdr c f ++ data) = .ok { ch := 2, fmt := c.fmtWord, sr := quant c, frames := (data.length - 1) / 2 } := by
   have hL24 : L < 2 ^ 24 := by rw [← hL]; exact wrapU_lt 24 _
@@ -227,8 +266,9 @@ theorem parse_image8 (c : Cfg) (hwf : c.wf) (h5 : c.codec = 5) (h2 : c.ch = 2) (
   have c0 : ¬ (40 + data.length < 40) := by omega
   have c1 : ¬ (40 + (L : Int) - 1 > ((40 + data.length : Nat) : Int)) := by omega
   have c2 : ¬ (40 + (L : Int) - 1 < ((40 + data.length : Nat) : Int)) := by omega
+  have cm : ¬ (40 + (L : Int) - 2 = ((40 + data.length : Nat) : Int)) := by omega
   rw [e40]
-  simp only [n85, n81, if_false, if_true, c0, c1, c2, ne_eq, not_true_eq_false, Nat.one_ne_zero, not_false_eq_true, decide_true, decide_false]
+  simp only [n85, n81, if_false, if_true, c0, cm, c1, c2, ne_eq, not_true_eq_false, Nat.one_ne_zero, not_false_eq_true, decide_true, decide_false]
   have hp := unrate16_pos true (rate16 c.sr) (rate16_lt c.sr)
   have c4 : ¬ ((2 : Nat) < 1 ∨ ((unrate16 true (rate16 c.sr) : Nat) : Int) < 1) := by omega
   rw [if_neg c4]
@@ -249,6 +289,48 @@ theorem parse_image8 (c : Cfg) (hwf : c.wf) (h5 : c.codec = 5) (h2 : c.ch = 2) (
   rw [hfr, hq]
   simp [Cfg.fmtWord, h5]
 
+/-- **voc_read_header on a type 8 + type 1 image without terminator** -/
+theorem parse_image8_missing (c : Cfg) (hwf : c.wf) (h5 : c.codec = 5) (h2 : c.ch = 2) (f : Fields) (L : Nat)
+    (hL : wrapU 24 (wrapS 32 (f.datalength + 2)) = L) (data : List Byte) (hlen : 40 + data.length < 2 ^ 31)
+    (hfit : L = data.length + 2) :
+    parse (hdr c f ++ data) = .ok { ch := 2, fmt := c.fmtWord, sr := quant c, frames := data.length / 2 } := by
+  have hL24 : L < 2 ^ 24 := by rw [← hL]; exact wrapU_lt 24 _
+  rw [hdr8_explicit c h5 h2 f L hL, List.append_assoc]
+  generalize hX : (8 :: 4 :: 0 :: 0 :: rate16 c.sr % 256 :: rate16 c.sr / 256 % 256 :: 0 :: 1 :: 1 ::
+      L % 256 :: L / 256 % 256 :: L / 256 / 256 % 256 :: rate8 c.sr :: 0 :: []) ++ data = X
+  have hXlen : X.length = 14 + data.length := by rw [← hX]; simp; omega
+  obtain ⟨k1, k2, k3, k4⟩ := fileHdr_checks X
+  have hbr := block_reads 8 4 0 0 (rate16 c.sr % 256) (rate16 c.sr / 256 % 256) 0 1 1 (L % 256) (L / 256 % 256) (L / 256 / 256 % 256) (rate8 c.sr) 0 data
+  simp only [List.cons_append, List.nil_append] at hbr hX
+  rw [hX] at hbr
+  obtain ⟨r26, _, _, _, r30, r33, r34, _, _, r35⟩ := hbr
+  rw [ofLE3_bytes L hL24] at r35
+  rw [ofLE2_bytes _ (rate16_lt c.sr)] at r30
+  unfold parse
+  rw [if_neg (by omega), guess_voc]
+  simp only []
+  unfold readHeader
+  rw [if_neg (by omega), if_neg (by omega), k1, k2, k3]
+  simp only [ne_eq, not_true_eq_false, or_self, false_and, if_false, and_false, and_self]
+  unfold readBlock
+  simp only [r26, r30, r33, r34, r35, k4, hXlen]
+  have e40 : 26 + (14 + data.length) = 40 + data.length := by omega
+  have n85 : ¬ ((8 : Nat) = 5 ∨ (8 : Nat) = 6) := by decide
+  have n81 : ¬ ((8 : Nat) = 1) := by decide
+  have c0 : ¬ (40 + data.length < 40) := by omega
+  have cm : 40 + (L : Int) - 2 = ((40 + data.length : Nat) : Int) := by omega
+  rw [e40]
+  simp only [n85, n81, if_false, if_true, c0, cm, ne_eq, not_true_eq_false, Nat.one_ne_zero, not_false_eq_true, decide_true, decide_false]
+  have hp := unrate16_pos true (rate16 c.sr) (rate16_lt c.sr)
+  have c4 : ¬ ((2 : Nat) < 1 ∨ ((unrate16 true (rate16 c.sr) : Nat) : Int) < 1) := by omega
+  rw [if_neg c4]
+  have hq : quant c = unrate16 true (rate16 c.sr) := by
+    have h1 : ¬ (c.ch = 1) := by omega
+    unfold quant; rw [if_pos h5, if_neg h1]
+  have hfr := framesOf_nat 40 data.length (1 * 2) (by decide)
+  rw [hfr, hq]
+  simp [Cfg.fmtWord, h5]
+
 /-! ### sessions -/
 
 theorem hdr_length (c : Cfg) (f : Fields) : (hdr c f).length = c.hdrLen := by
@@ -262,13 +344,12 @@ theorem lawful (c : Cfg) : Lawful (fmt c) where
   hlen := by intro f; exact hdr_length c f
   hindep := by intro n f g; rfl
 
-/-- the closed file: the header recomputed over "audio + terminator", the audio, the terminator -/
+/-- the closed file: the header computed from the audio in front of the terminator (`closeFields`), the audio, the
+    terminator -/
 theorem closedBytes_eq (c : Cfg) (stale : Nat) (ops : List WOp) :
-    closedBytes c stale ops = calcHdr (fmt c) (c.hdrLen + ((opsData ops).length + 1)) ++ (opsData ops ++ [0]) := by
+    closedBytes c stale ops = hdr c (closeFields c (opsData ops).length) ++ (opsData ops ++ [0]) := by
   obtain ⟨h1, h2⟩ := run_inv (fmt c) (lawful c) ops (openW (fmt c) stale) (open_hdr_len (fmt c) (lawful c) stale)
   unfold closedBytes closeSt St.bytes
-  rw [emit_true_hdr (fmt c) (lawful c), emit_data]
-  simp only [h1, h2, open_data, List.nil_append, List.length_append, List.length_singleton]
-  rfl
+  simp only [h2, open_data, List.nil_append]
 
 end Sf.Voc
